@@ -7,6 +7,17 @@ props = [json.loads(l) for l in open(os.path.join(HERE, "properties.jsonl"))]
 MC = "model_checking"
 CHECKS = {
 
+ "C14": dict(
+   level=MC, design="DESIGN.md section 2, C14",
+   technique="stateless model checking: all remote_exec outcome histories (bounded length) on a main_thread_only worker, exhaustive interleavings of receiver and main thread within bounds",
+   text="All histories of length <=2 over {return, raise, SystemExit, KeyboardInterrupt, blocked} with sequential or overlapping submission (plus the length-3 histories with a failing middle body or an overlap), each under all interleavings with <=2 sync preemptions / <=1 statement preemption. Oracle: every body runs in the worker's main thread, in submission order, never overlapping; an overlapping submission is refused with the documented deadlock RemoteError without disturbing the earlier body; a submission after the previous channel closed always runs.",
+   note="Discrete-event time: the 1 s grace wait never expires while the previous body's thread is runnable (the assumption the code comment makes). Same trusted base as C02."),
+ "C18": dict(
+   level=MC, design="DESIGN.md section 2, C18",
+   technique="stateless model checking of concurrent channel allocation (statement-level preemption inside ChannelFactory) plus bounded-exhaustive transfer histories",
+   text="2 threads per side allocating channels (newchannel / remote_exec) concurrently under all interleavings with <=2 sync and <=2 statement-level preemptions: ids distinct, initiator odd / worker even, no cross-connection; a channel transferred bare and in list/tuple/dict/nested/frozenset containers in both directions arrives as a Channel with the same id and carries a 2-item conversation; after m in {2 (explored), 200 (default schedule)} open/transfer/close|drop|error cycles the per-gateway channel tables and remote numchannels are back at their baseline.",
+   note="Table sizes are judged at quiescence. gc is disabled during an execution, so reference cycles are not collected (drop = refcount drop). Same trusted base as C02."),
+
  "C02": dict(
    level=MC, design="DESIGN.md section 2, C02",
    technique="stateless model checking: generated channel programs run on the real Gateway/Channel code over virtual pipes/sockets; exhaustive enumeration of interleavings (sync and statement level) and read chunkings within deviation bounds",
